@@ -870,6 +870,27 @@ class Terms(object):
             for x in split_cond(*c):
                 if x not in out:
                     out.append(x)
+        # inside a loop over a filtered collection ([x for x in it if c(x)])
+        # the filter holds for the element in hand
+        st_ = getattr(node, "ast", None)
+        child = st_
+        p_ = getattr(st_, "_parent", None) if st_ is not None else None
+        while p_ is not None and p_ is not self.fn:
+            if isinstance(p_, ast.For) and any(child is b for b in p_.body) \
+                    and id(p_) in self.cfg.loop_head:
+                try:
+                    it = self.term(p_.iter, self.cfg.loop_head[id(p_)])
+                    inner = it[2] if it[0] == "new" else it
+                    if inner[0] in ("listcomp", "setcomp", "genexp") and \
+                            len(inner[2]) == 1 and \
+                            inner[1] == self._elem(inner[2][0][0]):
+                        for c_ in inner[2][0][1]:
+                            for x in split_cond(c_, True):
+                                if x not in out:
+                                    out.append(x)
+                except AnalysisError:
+                    pass
+            child, p_ = p_, getattr(p_, "_parent", None)
         return unit_propagate(out)
 
     def _post(self, call, node):
